@@ -97,7 +97,9 @@ def unescape(lit):
     return "".join(out)
 
 
-def ws_alternatives(body):
+def ws_alternatives(body, rs=None, depth=0):
+    """the alternatives of a rule body made of string literals, NEWLINE and references to other silent
+    rules of the same kind (expanded in place)"""
     alts = []
     for part in norm(body).split(" | "):
         part = part.strip()
@@ -105,6 +107,8 @@ def ws_alternatives(body):
             alts += ["\n", "\r\n", "\r"]          # pest builtin: NEWLINE = "\n" | "\r\n" | "\r"
         elif re.fullmatch(r'"(?:\\.|[^"\\])*"', part):
             alts.append(unescape(part))
+        elif rs is not None and re.fullmatch(r"\w+", part) and part in rs and rs[part][0] == "_" and depth < 8:
+            alts += ws_alternatives(rs[part][1], rs, depth + 1)
         else:
             raise SystemExit("extract_ws: WHITESPACE alternative not recognised: %r" % part)
     return alts
@@ -150,7 +154,7 @@ def main():
     if errors:
         sys.stderr.write("extract_ws: " + "; ".join(errors) + "\n")
         sys.exit(1)
-    alts = ws_alternatives(rs["WHITESPACE"][1])
+    alts = ws_alternatives(rs["WHITESPACE"][1], rs)
     body = []
     body.append("/- GENERATED by tools/extract_ws.py from crates/core/src/parser/grammar.pest — do not edit.")
     body.append("   WHITESPACE = _{ %s }   (NEWLINE expanded) -/" % norm(rs["WHITESPACE"][1]))
